@@ -1,5 +1,6 @@
 pub mod cli;
 pub mod engine;
+pub mod fakeai;
 pub mod known;
 pub mod models;
 pub mod props;
